@@ -30,8 +30,144 @@ pub fn exercise(text: &str) -> Result<String, crate::sut::Panic> {
     })
 }
 
-/// Replace integer tokens lying in the clock window by a placeholder.
+/// Closed integer arithmetic written out in the program text - `(+ 1791000000 200122)`, `(* 24 60 60)`,
+/// `(expt 2 20)`, radix literals `#x6a..` / `#o..` / `#b..` - replaced by its decimal value (string literals
+/// are left alone). The clock monitors look at *values*: a constant spelled as a sum is still that constant.
+pub fn fold_arith(text: &str) -> String {
+    let cs: Vec<char> = text.chars().collect();
+    fn ws(cs: &[char], mut i: usize) -> usize {
+        while i < cs.len() && cs[i].is_whitespace() {
+            i += 1;
+        }
+        i
+    }
+    fn delim(cs: &[char], i: usize) -> bool {
+        i >= cs.len() || cs[i].is_whitespace() || cs[i] == ')' || cs[i] == '('
+    }
+    fn int(cs: &[char], i: usize) -> Option<(i128, usize)> {
+        let mut j = i;
+        let mut radix = 10;
+        if j + 1 < cs.len() && cs[j] == '#' {
+            radix = match cs[j + 1] {
+                'x' | 'X' => 16,
+                'o' | 'O' => 8,
+                'b' | 'B' => 2,
+                'd' | 'D' => 10,
+                _ => return None,
+            };
+            j += 2;
+        }
+        let neg = j < cs.len() && cs[j] == '-';
+        if neg || (j < cs.len() && cs[j] == '+') {
+            j += 1;
+        }
+        let st = j;
+        while j < cs.len() && cs[j].is_digit(radix) {
+            j += 1;
+        }
+        if j == st || !delim(cs, j) {
+            return None;
+        }
+        let v = i128::from_str_radix(&cs[st..j].iter().collect::<String>(), radix).ok()?;
+        Some((if neg { -v } else { v }, j))
+    }
+    fn arith(cs: &[char], i: usize) -> Option<(i128, usize)> {
+        if i >= cs.len() || cs[i] != '(' {
+            return None;
+        }
+        let mut j = ws(cs, i + 1);
+        let st = j;
+        while j < cs.len() && !delim(cs, j) {
+            j += 1;
+        }
+        let op: String = cs[st..j].iter().collect();
+        if !matches!(op.as_str(), "+" | "-" | "*" | "expt") {
+            return None;
+        }
+        let mut args = vec![];
+        loop {
+            j = ws(cs, j);
+            if j >= cs.len() {
+                return None;
+            }
+            if cs[j] == ')' {
+                j += 1;
+                break;
+            }
+            let (v, e) = if cs[j] == '(' { arith(cs, j)? } else { int(cs, j)? };
+            args.push(v);
+            j = e;
+        }
+        if args.is_empty() {
+            return None;
+        }
+        let v = match op.as_str() {
+            "+" => args.iter().try_fold(0i128, |a, b| a.checked_add(*b))?,
+            "*" => args.iter().try_fold(1i128, |a, b| a.checked_mul(*b))?,
+            "-" => {
+                if args.len() == 1 {
+                    args[0].checked_neg()?
+                } else {
+                    args[1..].iter().try_fold(args[0], |a, b| a.checked_sub(*b))?
+                }
+            }
+            _ => {
+                if args.len() != 2 || args[1] < 0 || args[1] > 126 {
+                    return None;
+                }
+                args[0].checked_pow(args[1] as u32)?
+            }
+        };
+        Some((v, j))
+    }
+    let mut out = String::with_capacity(text.len());
+    let mut i = 0;
+    let mut in_str = false;
+    while i < cs.len() {
+        let c = cs[i];
+        if in_str {
+            out.push(c);
+            if c == '\\' && i + 1 < cs.len() {
+                out.push(cs[i + 1]);
+                i += 2;
+                continue;
+            }
+            if c == '"' {
+                in_str = false;
+            }
+            i += 1;
+            continue;
+        }
+        if c == '"' {
+            in_str = true;
+            out.push(c);
+            i += 1;
+            continue;
+        }
+        if c == '(' {
+            if let Some((v, e)) = arith(&cs, i) {
+                out.push_str(&v.to_string());
+                i = e;
+                continue;
+            }
+        }
+        if c == '#' && (i == 0 || delim(&cs, i - 1) || cs[i - 1] == '(') && i + 1 < cs.len() && matches!(cs[i + 1], 'x' | 'X' | 'o' | 'O' | 'b' | 'B' | 'd' | 'D') {
+            if let Some((v, e)) = int(&cs, i) {
+                out.push_str(&v.to_string());
+                i = e;
+                continue;
+            }
+        }
+        out.push(c);
+        i += 1;
+    }
+    out
+}
+
+/// Replace integer constants lying in the clock window by a placeholder (after folding closed arithmetic).
 pub fn normalise_clock(text: &str, t0: i128, t1: i128) -> String {
+    let folded = fold_arith(text);
+    let text = folded.as_str();
     let mut out = String::with_capacity(text.len());
     let b = text.as_bytes();
     let mut i = 0;
@@ -117,5 +253,17 @@ pub fn run(ctx: &Ctx, rep: &mut Report) {
     });
     if ctx.only.is_none() {
         rep.floor("all three outcome kinds observed", rep.get("outcome_parse_err") > 100 && rep.get("outcome_compile_err") > 10 && rep.get("outcome_ok") > 100);
+    }
+}
+
+#[cfg(test)]
+mod tests {
+    use super::*;
+    #[test]
+    fn folds_closed_arithmetic_only() {
+        assert_eq!(fold_arith("(quotient (- (+ 1791000000 200122) (mtime)) (* 24 60 60))"), "(quotient (- 1791200122 (mtime)) 86400)");
+        assert_eq!(fold_arith("(= (uid) #x10) \"(+ 1 2) #x10\" (expt 2 20) (+ a 1) (- 5)"), "(= (uid) 16) \"(+ 1 2) #x10\" 1048576 (+ a 1) -5");
+        assert_eq!(fold_arith("#\\x1e (logand (mode) #o170000)"), "#\\x1e (logand (mode) 61440)");
+        assert_eq!(normalise_clock("(- (+ 1791000000 200122) (mtime))", 1791200121, 1791200123), "(- <now> (mtime))");
     }
 }
